@@ -206,7 +206,11 @@ fn check_resolution(
         ))
       } else if (rs == "https" || rs == "http")
         && ss == "file"
-        && text.to_lowercase().starts_with("file://")
+        // "a literal `file:` URL": the text itself is an absolute file URL
+        // (however it is spelled: file:///a, file:/a, file:a, FILE:///a, with
+        // leading white space), as opposed to something a resolver mapped to
+        // one
+        && url::Url::parse(text).is_ok_and(|u| u.scheme() == "file")
       {
         Some((
           class.to_string(),
@@ -254,8 +258,30 @@ pub fn reference_errors(
   roots: &[String],
   o: &WalkOpts,
 ) -> Vec<ErrKey> {
+  reference_errors_with_optional(shape, roots, o).0
+}
+
+/// (required, optional): when dynamic imports are followed, a missing module
+/// is reported at the edges that lead to it (so that a dynamic edge can say
+/// "missing dynamic import"); its own entry then need not be reported again -
+/// but it may be (a root is visited before any edge to it is looked at), and
+/// it must be when no checked edge leads to it (a root, a configured import,
+/// the type target of a module whose types are not checked).
+pub fn reference_errors_with_optional(
+  shape: &Shape,
+  roots: &[String],
+  o: &WalkOpts,
+) -> (Vec<ErrKey>, Vec<ErrKey>) {
   let yielded = reference_walk(shape, roots, o, &BTreeSet::new());
   let mut errs = vec![];
+  let mut optional = vec![];
+  let mut surfaced: BTreeSet<String> = BTreeSet::new();
+  let mut missing_entries: Vec<ErrKey> = vec![];
+  let mut note = |e: &ErrKey, surfaced: &mut BTreeSet<String>| {
+    if e.0 == "module" && (e.1 == "Missing" || e.1 == "MissingDynamic") {
+      surfaced.insert(e.2.clone());
+    }
+  };
   for y in &yielded {
     match y {
       Yield::Module(s) => {
@@ -267,6 +293,7 @@ pub fn reference_errors(
             if let Some(e) =
               check_resolution(shape, s, true, text, res, false, o)
             {
+              note(&e, &mut surfaced);
               errs.push(e);
             }
           }
@@ -283,6 +310,7 @@ pub fn reference_errors(
               d.is_dynamic,
               o,
             ) {
+              note(&e, &mut surfaced);
               errs.push(e);
             }
             if check_types {
@@ -290,12 +318,14 @@ pub fn reference_errors(
                 shape,
                 s,
                 true,
-                &d.key,
+                // the text that was resolved for the type target
+                d.deno_types.as_deref().unwrap_or(&d.key),
                 &d.typ,
                 d.is_dynamic,
                 o,
               ) {
-                errs.push(e);
+                note(&e, &mut surfaced);
+              errs.push(e);
               }
             }
           }
@@ -310,21 +340,32 @@ pub fn reference_errors(
           ..
         }) = shape.slots.get(s)
         {
-          if !(o.follow_dynamic && *is_missing) {
-            errs.push((
-              "module".into(),
-              variant.clone(),
-              at.clone(),
-              referrer_range.clone().unwrap_or_default(),
-            ));
+          let key: ErrKey = (
+            "module".into(),
+            variant.clone(),
+            at.clone(),
+            referrer_range.clone().unwrap_or_default(),
+          );
+          if o.follow_dynamic && *is_missing {
+            missing_entries.push(key);
+          } else {
+            errs.push(key);
           }
         }
       }
       Yield::Redirect(..) => {}
     }
   }
+  for k in missing_entries {
+    if surfaced.contains(&k.2) {
+      optional.push(k);
+    } else {
+      errs.push(k);
+    }
+  }
   errs.sort();
-  errs
+  optional.sort();
+  (errs, optional)
 }
 
 /// Canonical form of an error actually reported by deno_graph.
